@@ -98,6 +98,12 @@ class Ctx:
         nm = base if k == 0 else "%s!%d" % (base, k)
         return z3.Const(nm, sort)
 
+    def fresh_fn(self, base, *sorts):
+        k = self.counter.get(base, 0)
+        self.counter[base] = k + 1
+        nm = base if k == 0 else "%s!%d" % (base, k)
+        return z3.Function(nm, *sorts)
+
     def assume(self, cond):
         cond = as_bool(cond)
         if cond is True or (is_z3(cond) and z3.is_true(cond)):
